@@ -166,7 +166,8 @@ class Contract(object):
     def __init__(self, name, params, requires=(), ensures=(), raises=None,
                  loops=None, modifies=(), result=None, ghost=None,
                  inline=False, lemmas=(), call_effect=None, setup=None,
-                 generator=False, notes=''):
+                 generator=False, notes='', exc_attrs=None,
+                 internal_ensures=()):
         self.name = name
         self.params = params          # ordered dict name -> Spec
         self.requires = list(requires)  # [(label, clause)]
@@ -182,6 +183,10 @@ class Contract(object):
         self.setup = setup
         self.generator = generator
         self.notes = notes
+        self.exc_attrs = dict(exc_attrs or {})
+        # post-conditions over the function's own locals: proved when the
+        # function is verified, not visible (not assumed) at call sites
+        self.internal_ensures = list(internal_ensures)
         self._parsed = {}
 
     def parsed(self, clause):
@@ -269,7 +274,7 @@ class Engine(object):
             return VConc(getattr(pybuiltins, name))
         if name in self.spec_funcs:
             return self.spec_funcs[name]
-        it.raise_(NameError)
+        raise Unsupported('name %r cannot be resolved by the engine' % name)
 
     def qualname_of(self, py):
         mod = getattr(py, '__module__', None)
@@ -312,7 +317,11 @@ class Engine(object):
                 raw = k.__dict__[name]
                 break
         else:
-            it.raise_(AttributeError)
+            # an instance attribute the contract's object description does
+            # not know about: the engine cannot tell whether the real object
+            # has it -> undecided, never a spurious AttributeError
+            raise Unsupported('attribute %r of %s is not described by the '
+                              'contract' % (name, cls.__name__))
         qn = '%s.%s.%s' % (k.__module__, k.__qualname__, name)
         if isinstance(raw, property):
             if qn in self.inline:
@@ -462,6 +471,7 @@ class Engine(object):
         saved_ghost = getattr(ctx, 'ghost_env', {})
         saved_olds = getattr(ctx, 'old_vals', {})
         try:
+            ctx.caller_ghost = saved_ghost
             ctx.ghost_env = {}
             if c.ghost:
                 ctx.ghost_env = c.ghost(it, bound)
@@ -471,15 +481,21 @@ class Engine(object):
             olds = self.capture_olds(it, c)
             # exceptional outcomes
             for exc, clause in c.raises.items():
-                cond = self.eval_clause(it, clause, {}) if clause is not None \
-                    else None
-                if cond is None:
-                    if ctx.choose(2) == 0:
-                        self.havoc_modifies(it, c)
-                        raise PyRaise(VExc(exc, []))
-                else:
-                    if ctx.branch(cond):
-                        raise PyRaise(VExc(exc, []))
+                # the callee may raise `exc`; the raised object satisfies the
+                # callee's exceptional post-condition
+                if ctx.choose(2) == 0:
+                    self.havoc_modifies(it, c)
+                    attrs = {}
+                    for an, sp in c.exc_attrs.get(exc, {}).items():
+                        attrs[an] = sp.make(it, 'exc_' + an)
+                    ex = VExc(exc, [], attrs)
+                    if clause is not None:
+                        env = {'exc': ex}
+                        for k2, v2 in attrs.items():
+                            env['exc_' + k2] = v2
+                        ctx.old_vals = olds
+                        ctx.assume(self.eval_clause(it, clause, env))
+                    raise PyRaise(ex)
             self.havoc_modifies(it, c)
             if c.call_effect:
                 res = c.call_effect(it, bound)
@@ -506,7 +522,7 @@ class Engine(object):
 
     def capture_olds(self, it, c):
         olds = {}
-        for label, clause in list(c.ensures) + [
+        for label, clause in list(c.ensures) + list(c.internal_ensures) + [
                 (k.__name__, v) for k, v in c.raises.items()
                 if v is not None]:
             if callable(clause):
@@ -594,7 +610,7 @@ class Engine(object):
                 for f in c.exit_lemmas(it, fr.locals, rc):
                     ctx.assume(f)
             # parameters keep their entry names for the post-state
-            for label, clause in c.ensures:
+            for label, clause in list(c.ensures) + list(c.internal_ensures):
                 ctx.oblige('post.%s' % label,
                            self.eval_clause(it, clause, env), kind='post',
                            where=fi.file)
@@ -687,8 +703,29 @@ def discharge(obligations, timeout_s=20, jobs=12, solvers=('z3', 'cvc5')):
                 return ob, r
         return ob, last
     from concurrent.futures import ThreadPoolExecutor
+    # obligations whose smallest slice is textually identical need one
+    # solver run: solve one representative per group first, re-use `unsat`
+    groups = {}
+    for ob in todo:
+        key = smt.sha(pre[id(ob)][0][1])
+        groups.setdefault(key, []).append(ob)
+    reps = [g[0] for g in groups.values()]
     with ThreadPoolExecutor(max_workers=jobs) as ex:
-        for ob, r in ex.map(one, todo):
+        for ob, r in ex.map(one, reps):
+            ob.result = r
+    rest = []
+    for key, g in groups.items():
+        r0 = g[0].result
+        first_name = pre[id(g[0])][0][0]
+        for ob in g[1:]:
+            if r0.status == smt.UNSAT and r0.solver.endswith(
+                    '/' + first_name):
+                ob.result = smt.Result(smt.UNSAT, r0.solver + '(shared)',
+                                       0.0)
+            else:
+                rest.append(ob)
+    with ThreadPoolExecutor(max_workers=jobs) as ex:
+        for ob, r in ex.map(one, rest):
             ob.result = r
     return obligations
 
